@@ -20,7 +20,14 @@ MANIFEST = {
             "over the whole pipeline is decided by a hostile-input search: boundary constants as offsets, sizes, shifts, jump targets, "
             "slot arithmetic and projections, truncated PUSHes, value/SLOAD towers, mutated real contracts, every stage prefix, both "
             "error modes, tiny limits, in the dev profile (debug assertions, overflow checks) and in the release profile (thorough "
-            "tier), each run in a child process so that aborts and stack overflows are observed.",
+            "tier), each run in a child process so that aborts and stack overflows are observed. "
+            "On the composed model of the whole analysis the composition is also a theorem (props/C01_pipeline.v, pipeline_no_panic): "
+            "for every byte string, every configuration with a polling interval >= 1, every keccak function, slot table, iteration "
+            "order and fuel, Pipeline.analyze_model never returns a panic; it rests on one invariant per stage boundary "
+            "(vm_values_wellformed, lifted_spans_bounded, registered_state_closed, merge_keeps_span_bound / "
+            "unify_preserves_span_bound: every span offset + size and every word width stays <= usize::MAX and every type variable "
+            "below the counter, so the only panic site of unify is unreachable; final_state_closed for abi_no_panic). A polling "
+            "interval of 0 is refuted (pipeline_poll_zero_panics). The search remains the tie between that model and the library.",
     "note": "Native stack exhaustion (recursion depth of find/transform) and allocator failure cannot be exhibited by the model: "
             "partial. Trusted: Coq kernel; MIR dump of rustc (RUSTC_BOOTSTRAP=1 -Zunpretty=mir) and its regex parser; harness.",
     "technique": "Coq stage theorems + MIR panic-site inventory checked against a committed registry + hostile differential search in "
@@ -31,6 +38,7 @@ MANIFEST = {
 def check(ctx):
     vlib.translate(ctx)
     vlib.prove(ctx, "props/C01.v")
+    vlib.prove(ctx, "props/C01_pipeline.v")
     rng = ctx.rng
     bw = gen.boundary_words()
     progs = []
